@@ -259,4 +259,64 @@ def vFeedTokens (toks : List Token) : FeedResult :=
   | .multipleRoot => FeedResult.ofPass true (vRun BState.init (wrapToks toks))
   | o => FeedResult.ofPass false o
 
+/-! ### the object across calls: `_reset`, `feed` on a used object, `parseStr` (C03)
+
+Additions for C03 ("without leaving the object unusable for the next parse"); nothing above changes. -/
+
+/-- `_reset`, field by field: `self.root = None; self.doctype = None; self._inTag = []` (the tokenizer's own
+    `HTMLParser.reset` is outside the model).  That these three assignments cover the WHOLE model state is
+    `C03.reset_restores_init`. -/
+def BState.reset (s : BState) : BState :=
+  { s with tree := { s.tree with stack := [], root := none }, doctype := none }
+
+/-- which exception an outcome is, if any -/
+def Outcome.err {σ : Type} : Outcome σ → Option Exc
+  | .ok _ => none
+  | .multipleRoot => some .multipleRoot
+  | .invalidClose => some .invalidClose
+  | .missedClose => some .missedClose
+  | .invalidAttr => some .invalidAttr
+
+/-- One pass that also says in which state the object is LEFT.  Every raising handler raises before it
+    assigns anything (`handle_starttag` builds `newTag` and raises in the `else:`; the text handlers only
+    raise), so after an exception the object is in the state it had before the offending token — elements
+    still open, root set, doctype set, whatever the earlier tokens did. -/
+def runS (s : BState) : List Token → BState × Option Exc
+  | [] => (s, none)
+  | t :: ts => match step s t with
+    | .ok s' => runS s' ts
+    | o => (s, o.err)
+
+/-- `feed(contents)` on the object AS IT IS (`feed` itself does not reset — a second `feed` continues the
+    document): the pass; on MultipleRootNodeException `self.reset()` and the wrapped text. -/
+def feedS (s : BState) (toks : List Token) : BState × Option Exc :=
+  match runS s toks with
+  | (s1, some .multipleRoot) => runS s1.reset (wrapToks toks)
+  | r => r
+
+/-- `parseStr` / `parseFile`: `self.reset()`, then `feed`. -/
+def parseStrS (s : BState) (toks : List Token) : BState × Option Exc := feedS s.reset toks
+
+/-- what a caller sees after `parseStr`: the document, or the exception -/
+def resultOf (second : Bool) (r : BState × Option Exc) : FeedResult :=
+  match r.2 with
+  | none => .doc r.1.doc second
+  | some e => .raised e
+
+/-! #### `handle_endtag` with the failure of `inTag[-1]` on an empty list explicit
+
+`handleEnd`/`popTo` above are total because the code wraps the body in `try: … except: pass`.  The variant
+below keeps the IndexError (`none`): `C03.handleEnd_never_index_error` shows it never happens — the bare
+`except` of `handle_endtag` is dead code, not a totalisation the model hides behind. -/
+
+def popToE (n : Str) : Nat → TState → Option TState
+  | 0, _ => none                      -- `inTag[-1]` on `[]`: the loop ran the list empty
+  | k + 1, s =>
+    match s.stack with
+    | f :: _ => if f.name = n then some (pop1 s) else popToE n k (pop1 s)
+    | [] => none                      -- IndexError
+
+def handleEndE (s : TState) (n : Str) : Option TState :=
+  if (s.stack.map (·.name)).contains n then popToE n s.stack.length s else some s
+
 end AHP
